@@ -41,6 +41,7 @@ TARGETS = {
     "c04": ("asan", ["harness_main", "budget", "simfs"], [], True, "-ldl"),
     "c07": ("asan", ["harness_main", "budget", "simfs"], [], True, "-ldl"),
     "c20": ("tsan", ["harness_main"], ["sched", "tsan_glue"], False, "-ldl -lpthread -Wl,--wrap=__cxa_guard_acquire -Wl,--wrap=__cxa_guard_release -Wl,--wrap=__cxa_guard_abort"),
+    "c15mt": ("tsan", ["harness_main"], ["sched", "tsan_glue", "simfs_sched"], True, "-ldl -lpthread -Wl,--wrap=__cxa_guard_acquire -Wl,--wrap=__cxa_guard_release -Wl,--wrap=__cxa_guard_abort"),
     "c09": ("tsan", ["harness_main"], ["sched", "tsan_glue"], True, "-ldl -lpthread -Wl,--wrap=__cxa_guard_acquire -Wl,--wrap=__cxa_guard_release -Wl,--wrap=__cxa_guard_abort"),
 }
 
